@@ -96,6 +96,7 @@ type Config struct {
 	PlainRegValues  bool     `json:"plain_reg_values,omitempty"`  // the application's body reader returns register values that implement UserValuer only (no ArbitraryValuer)
 	WriterWrap      string   `json:"writer_wrap,omitempty"`       // an application middleware right behind LoadClientStateMiddleware wraps the response writer (compression, metrics): "underlying" exposes it through UnderlyingResponseWriter(), "unwrap" through Unwrap() only; "controller": no wrapper, the middleware sets a write deadline through http.ResponseController
 	App2FAHook      bool     `json:"app_2fa_hook,omitempty"`      // the application hooks After(EventTwoFactorAdded) while configuring authboss (before the 2FA Setup calls) and answers the request itself (a "2FA is on now" page)
+	AppAuthFailHook bool     `json:"app_authfail_hook,omitempty"` // the application hooks After(EventAuthFail) while configuring authboss (before Init, so ahead of the modules' own listeners) and answers the failed attempt itself
 	CustomHasher    bool     `json:"custom_hasher,omitempty"`     // Core.Hasher is the application's own (salted SHA-256, "$ssha256$salt$digest"), not bcrypt
 	StoreZoneH      int      `json:"store_zone_h,omitempty"`      // the storer hands instants back in a fixed zone this many hours off UTC (a database driver's session time zone); 0 = UTC
 	NumericIDs      bool     `json:"numeric_ids,omitempty"`       // with StockDetails: the provider's user-info endpoint sends all-digit ids as bare JSON numbers
@@ -518,6 +519,15 @@ func NewWorld(cfg Config) (w *World, err error) {
 				return false, nil
 			}
 			ro := authboss.RedirectOptions{Code: http.StatusTemporaryRedirect, RedirectPath: "/ok/2fa-added", Success: "Two-factor authentication is on"}
+			return true, ab.Config.Core.Redirector.Redirect(rw, r, ro)
+		})
+	}
+	if cfg.AppAuthFailHook {
+		ab.Events.After(authboss.EventAuthFail, func(rw http.ResponseWriter, r *http.Request, handled bool) (bool, error) {
+			if handled {
+				return false, nil
+			}
+			ro := authboss.RedirectOptions{Code: http.StatusTemporaryRedirect, RedirectPath: "/notok/bad-credentials", Failure: "That did not work"}
 			return true, ab.Config.Core.Redirector.Redirect(rw, r, ro)
 		})
 	}
